@@ -31,7 +31,9 @@ fn generate(ctx: &Ctx, n: usize, via_file: bool, tag: &str) -> Result<String, St
         let _ = std::fs::write(&file, super::common::stale_content());
         args.push(file.display().to_string());
     }
-    let out = cli::run(&ctx.bin("n_queens_gen"), &args, None, Some(&dir), None, Duration::from_secs(120));
+    // the formula printed to a TERMINAL (every third size) instead of a pipe
+    let feed = cli::Feed { stdout_tty: !via_file && n % 3 == 1, ..Default::default() };
+    let out = cli::run_fed(&ctx.bin("n_queens_gen"), &args, None, &feed, Some(&dir), None, Duration::from_secs(120));
     let res = if out.timed_out {
         Err("watchdog".to_string())
     } else if !out.ok() {
@@ -518,7 +520,7 @@ pub fn run(ctx: &Ctx) -> (Stats, Spec) {
     let exact_max = ctx.tier.pick(10usize, 12usize);
     let rsbdd_max = ctx.tier.pick(6usize, 7usize);
     let mut sizes: Vec<(usize, bool, bool, u64)> = (1..=exact_max).map(|n| (n, true, n <= rsbdd_max, if n >= 4 { 2_000 } else { 0 })).collect();
-    let large: Vec<usize> = ctx.tier.pick(vec![10, 11, 12, 13, 16, 24, 31, 64, 100, 255, 256, 257, 316, 317, 320], vec![12, 13, 14, 15, 16, 24, 32, 33, 64, 100, 128, 200, 255, 256, 257, 300, 316, 317, 400, 999, 1000, 1001]);
+    let large: Vec<usize> = ctx.tier.pick(vec![10, 11, 12, 13, 16, 24, 31, 64, 100, 255, 256, 257, 316, 317, 320, 1025], vec![12, 13, 14, 15, 16, 24, 32, 33, 64, 100, 128, 200, 255, 256, 257, 300, 316, 317, 400, 999, 1000, 1001, 1024, 1025, 1026, 2049]);
     let probes = ctx.tier.pick(20_000u64, 400_000u64);
     for n in large {
         // a size that is already compared exactly only gets the larger probe budget (one job per size)
@@ -561,7 +563,7 @@ pub fn run(ctx: &Ctx) -> (Stats, Spec) {
     }
     st.exhaustive.push(format!("exact model-set equality for every board size n = 1..{}", exact_max));
     let spec = Spec {
-        rule: "every board size n = 1..10 [quick] / 1..12 [thorough]: the real generator's output (stdout, a file that already exists with longer content, and — twelve sequences of sizes, e.g. 12 then 1, 40 then 4, 6 then 64 then 6 — the file an earlier run wrote for another size) is parsed by the reference grammar, its variable set must be v_0..v_(n^2-1), and ALL its models (three-valued propagation search) are compared as a set with an independent backtracking enumeration; rsbdd -t -ft cross-check for n <= 6 / 7; larger n incl. 255, 256, 257 (16-bit boundary), 316, 317 (six-digit indices), thorough also 999-1001 (seven digits): variable set, attacking and non-attacking square pairs (all pairs when feasible, else sampled with a bias to shared lines), empty rows/columns, a constructed placement and near-misses; HUGE sizes up to 65535 (the largest value the option accepts; also 32768, 46341 where the square count passes 2^30 / 2^31): the first 6 MiB [quick] / 48 MiB [thorough] of the streamed output are read and every complete clause must be implied by the rules on its own (distinct squares of one line for <= 1, a complete row / column for = 1, indices below n^2). distinct = board size (exact) / board size (probed); every board size is a configuration.".into(),
+        rule: "every board size n = 1..10 [quick] / 1..12 [thorough]: the real generator's output (stdout, a file that already exists with longer content, and — twelve sequences of sizes, e.g. 12 then 1, 40 then 4, 6 then 64 then 6 — the file an earlier run wrote for another size) is parsed by the reference grammar, its variable set must be v_0..v_(n^2-1), and ALL its models (three-valued propagation search) are compared as a set with an independent backtracking enumeration; rsbdd -t -ft cross-check for n <= 6 / 7; larger n incl. 255, 256, 257 (16-bit boundary), 316, 317 (six-digit indices), 1025 (lists of more than 1024 entries), thorough also 999-1001 (seven digits), 1024-1026, 2049: variable set, attacking and non-attacking square pairs (all pairs when feasible, else sampled with a bias to shared lines), empty rows/columns, a constructed placement and near-misses; HUGE sizes up to 65535 (the largest value the option accepts; also 32768, 46341 where the square count passes 2^30 / 2^31): the first 6 MiB [quick] / 48 MiB [thorough] of the streamed output are read and every complete clause must be implied by the rules on its own (distinct squares of one line for <= 1, a complete row / column for = 1, indices below n^2). distinct = board size (exact) / board size (probed); every board size is a configuration.".into(),
         assumptions: vec![
             "v_k is read as 'a queen on row k div n, column k mod n'".into(),
             "for n beyond the enumerable bound the model set is only probed, not compared".into(),
